@@ -285,6 +285,8 @@ def is_benign_call(call: ast.Call, handler_vars=()) -> bool:
     if name == "getattr" and len(call.args) == 3:
         return True
     f = call.func
+    if isinstance(f, ast.Attribute) and f.attr in ("set", "is_set", "done", "cancel", "cancelled") and not call.args and not call.keywords:
+        return True  # synchronous state methods of asyncio/anyio events, futures and tasks are total
     if isinstance(f, ast.Attribute) and f.attr in ("lower", "upper", "strip", "startswith", "endswith", "split", "rstrip", "lstrip") and len(call.args) <= 1 and not call.keywords:
         recv = f.value
         if isinstance(recv, ast.JoinedStr) or (isinstance(recv, ast.Constant) and isinstance(recv.value, str)):
